@@ -131,6 +131,8 @@ pub struct Req {
     /// (endpoint, cluster, leaf): None = wildcard
     pub paths: Vec<(Option<u16>, Option<u32>, Option<u32>)>,
     pub timed: bool,
+    /// reads: also ask for the events of the first path's cluster (the node has none to report)
+    pub events: bool,
 }
 
 pub struct Outcome {
@@ -183,11 +185,20 @@ pub fn run_request(spec: &NodeSpec, acl: &[AclEntry], pase: bool, req: &Req, max
                     let mut sender = exchange.read_sender().await?;
                     let mut chunk = loop {
                         match sender.tx().await? {
-                            TxOutcome::BuildRequest(b) => sender = b.attr_requests_from(&paths)?.fabric_filtered(false)?.end()?,
+                            TxOutcome::BuildRequest(b) => {
+                                sender = if req.events {
+                                    let ev = [rs_matter::im::EventPath::from_gp(&gp(&req.paths[0]))];
+                                    b.attr_requests_from(&paths)?.event_requests_from(&ev)?.fabric_filtered(false)?.end()?
+                                } else {
+                                    b.attr_requests_from(&paths)?.fabric_filtered(false)?.end()?
+                                }
+                            }
                             TxOutcome::GotResponse(c) => break c,
                         }
                     };
+                    let mut chunk_no = 0usize;
                     loop {
+                        chunk_no += 1;
                         {
                             let resp = chunk.response()?;
                             let mut n = 0;
@@ -207,9 +218,9 @@ pub fn run_request(spec: &NodeSpec, acl: &[AclEntry], pase: bool, req: &Req, max
                                                 },
                                             };
                                             let first = d.data.str().ok().and_then(|s| s.first().copied());
-                                            items.borrow_mut().push(json!({"k": "data", "ep": d.path.endpoint, "cl": d.path.cluster, "leaf": d.path.attr, "li": li, "len": len, "els": els, "first": first}));
+                                            items.borrow_mut().push(json!({"k": "data", "chunk": chunk_no, "ep": d.path.endpoint, "cl": d.path.cluster, "leaf": d.path.attr, "li": li, "len": len, "els": els, "first": first}));
                                         }
-                                        Ok(AttrResp::Status(st)) => items.borrow_mut().push(json!({"k": "status", "ep": st.path.endpoint, "cl": st.path.cluster, "leaf": st.path.attr, "status": format!("{:?}", st.status.status)})),
+                                        Ok(AttrResp::Status(st)) => items.borrow_mut().push(json!({"k": "status", "chunk": chunk_no, "ep": st.path.endpoint, "cl": st.path.cluster, "leaf": st.path.attr, "status": format!("{:?}", st.status.status)})),
                                         Err(e) => { malformed = format!("{:?}", e.code()); break; }
                                     }
                                 }
